@@ -1,6 +1,6 @@
 # C08 - coroutine mutex: FIFO hand-off and no lost request
 import re
-from ..core import var_def, norm, relloc, live, calls, evs, Broken, value_origin, Tracer, fmt_trace, rooted, has_back_edge, tests, cond_event
+from ..core import var_def, norm, relloc, live, calls, evs, Broken, value_origin, Tracer, fmt_trace, rooted, has_back_edge, tests, cond_event, pos
 from .. import atomic
 from ..rules import *
 from . import C07
@@ -68,7 +68,7 @@ def try_lock(ctx, db, rid):
                     won = it.val; break
             cons = [c for c in calls(tr) if c.k == 'construct' and norm(c.get('callee')) == 'cocls::mutex::ownership::ownership' and not c.get('copy_or_move')]
             arg = (cons[-1].get('args') or [{}])[0].get('path') if cons else None
-            arg = resolve_select(arg, tr[:tr.index(cons[-1])]) if cons and arg else arg
+            arg = resolve_select(arg, tr[:pos(tr, cons[-1])]) if cons and arg else arg
             if won is True:
                 ny += 1
                 if arg != 'this':
